@@ -47,6 +47,7 @@ def run(ctx):
     ctx.rule('NEWORIENT', 'a new cell found negatively oriented is reordered before it is inserted')
     ctx.rule('DIMGATE', 'each flip context builder refuses dimensions below the size of its move')
     ctx.rule('NEWINC', 'the k=1 split clears the caller\'s incident_cell and gives the stored vertex one of the new cells')
+    ctx.rule('INFOFIELDS', 'a flip result reports the faces and cells it was given: each FlipInfo field comes from the parameter of the same name only')
     ctx.rule('KARG', 'the run-time k of the dynamic flip entry is a function of the const dimension alone and siblings agree on it')
     ctx.rule('POSTFLIP', 'a flip layer reports success only behind neighbour wiring, removal of the old cells and the '
                          'coherent-orientation normalisation')
@@ -59,6 +60,7 @@ def run(ctx):
         _dimgate(ctx, cfg, prog)
         _karg(ctx, cfg, prog, ctx.mod(cfg))
         _newinc(ctx, cfg, prog, ctx.mod(cfg))
+        _infofields(ctx, cfg, prog, ctx.mod(cfg))
         _newcellorient(ctx, cfg, prog, ctx.mod(cfg))
         kb = ctx.anchor(cfg, KERNEL)
         if kb is None:
@@ -313,6 +315,54 @@ def _writes_incident(prog, name, depth):
         r = any(_writes_incident(prog, t.resolved or t.callee or '', depth - 1) for _, t in b.calls())
     _INC_MEMO[key] = r
     return r
+
+
+INFO_FIELDS = ('removed_face_vertices', 'inserted_face_vertices', 'removed_cells')
+
+
+def _infofields(ctx, cfg, prog, mod):
+    """INFOFIELDS: "describes precisely the removed and created cells in its result" - the caller feeds
+    `inserted_face_vertices` of a result to the inverse entry point.  Wherever a `FlipInfo` is built in a function that has
+    parameters named like its fields, each of those fields' values comes from the parameter of the same name and from no
+    sibling parameter (a `match direction` that swaps the two faces for inverse moves puts both parameters into both
+    slices)."""
+    import valueflow
+    n = 0
+    for q, b in sorted(prog.bodies.items()):
+        if '::tests::' in q or not b.file.startswith('src/'):
+            continue
+        params = {b.names.get(i): i for i in range(1, b.nargs + 1) if b.names.get(i) in INFO_FIELDS}
+        if not params:
+            continue
+        al = None
+        for blk in b.blocks:
+            if blk.cleanup:
+                continue
+            for s_ in blk.stmts:
+                if s_.kind != 'A' or s_.rv.k != 'agg' or s_.rv.raw.get('adt') != 'core::algorithms::flips::FlipInfo':
+                    continue
+                al = al or mod.aliases(q)
+                fields = s_.rv.raw.get('fields') or []
+                for fname, op in zip(fields, s_.rv.ops):
+                    if fname not in params or op.place is None:
+                        continue
+                    n += 1
+                    roots = set()
+                    for leaf in valueflow.sources(b, al, op.place.local):
+                        if leaf[0] == 'param':
+                            roots.add(leaf[1])
+                        elif leaf[0] == 'place':
+                            roots.add(leaf[1][0])
+                    own = params[fname] in roots
+                    foreign = sorted(nm for nm, i in params.items() if nm != fname and i in roots)
+                    ok = own and not foreign
+                    ctx.ob('INFOFIELDS', '%s|%s' % (b.root or q, fname), cfg, ok,
+                           'FlipInfo.%s is built from the parameter of that name only' % fname if ok else
+                           'FlipInfo.%s %s%s: the result of a successful flip does not describe the face / cells the move '
+                           'removed and created' % (fname, 'does not come from the parameter of that name' if not own else 'also depends on',
+                                                    '' if not foreign else ' ' + ', '.join(foreign)),
+                           site='%s:%d' % (b.file, s_.line))
+    ctx.floor('FlipInfo fields fed by same-named parameters', 2, n, cfg)
 
 
 def _newinc(ctx, cfg, prog, mod):
